@@ -121,6 +121,9 @@ pub(crate) struct PositionCalculator<'a> {
     pos: usize,
     line: usize,
     column: usize,
+    /// Whether the previous character was a carriage return, which has
+    /// already ended its line; a line feed directly after it belongs to it.
+    after_cr: bool,
 }
 
 impl<'a> PositionCalculator<'a> {
@@ -130,30 +133,47 @@ impl<'a> PositionCalculator<'a> {
             pos: 0,
             line: 1,
             column: 1,
+            after_cr: false,
         }
     }
 
-    pub(crate) fn step<R: RuleType>(&mut self, pair: &Pair<R>) -> Pos {
-        let pos = pair.as_span().start();
-        debug_assert!(pos >= self.pos);
-        let bytes_to_read = pos - self.pos;
-        let chars_to_read = self.input[..bytes_to_read].chars();
-        for ch in chars_to_read {
+    /// The position of the given byte offset of `input`.
+    pub(crate) fn pos_at(input: &'a str, offset: usize) -> Pos {
+        let mut pc = Self::new(input);
+        pc.advance(offset);
+        Pos {
+            line: pc.line,
+            column: pc.column,
+        }
+    }
+
+    fn advance(&mut self, bytes_to_read: usize) {
+        for ch in self.input[..bytes_to_read].chars() {
             match ch {
                 '\r' => {
+                    self.line += 1;
                     self.column = 1;
                 }
                 '\n' => {
-                    self.line += 1;
-                    self.column = 1;
+                    if !self.after_cr {
+                        self.line += 1;
+                        self.column = 1;
+                    }
                 }
                 _ => {
                     self.column += 1;
                 }
             }
+            self.after_cr = ch == '\r';
         }
-        self.pos = pos;
+        self.pos += bytes_to_read;
         self.input = &self.input[bytes_to_read..];
+    }
+
+    pub(crate) fn step<R: RuleType>(&mut self, pair: &Pair<R>) -> Pos {
+        let pos = pair.as_span().start();
+        debug_assert!(pos >= self.pos);
+        self.advance(pos - self.pos);
         Pos {
             line: self.line,
             column: self.column,
